@@ -46,8 +46,13 @@ func handleAstRun(req *Req) *Resp {
 	resp.Out["ast"] = canon(anyList(a))
 	var runs []string
 	for _, t := range req.Texts {
-		ms, p, _, _, over := runSafe(v, toText(t), 2000000)
-		if p != "" || over {
+		// a fixed instruction budget, the same for the original and the variant: deterministic, load-independent
+		ms, p, _, _, over := runSafe(v, toText(t), 150000)
+		if over {
+			runs = append(runs, "budget")
+			continue
+		}
+		if p != "" {
 			runs = append(runs, "panic:"+p)
 			continue
 		}
@@ -97,7 +102,7 @@ func layoutCheckMain(args []string) int {
 		bytesJSON([]byte("z9 12 ab q, x 12\nAB ab\n")), bytesJSON([]byte("<div>x</div> 3.5e2 \"a\",b\n15 9 10")), bytesJSON([]byte("12z 13z"))}
 	rep := &Report{Property: "C15", Family: "layout", OtherDiffs: map[string]int{}, Violations: []Violation{}, Samples: []any{}, Undecided: []string{}}
 	var mu sync.Mutex
-	pool := NewPool(*workers, 60*time.Second)
+	pool := NewPool(*workers, 180*time.Second)
 	defer pool.Close()
 	perSig := map[string]int{}
 	add := func(kind, detail, orig, variant string, edit Node) {
@@ -159,6 +164,10 @@ func layoutCheckMain(args []string) int {
 				defer wg.Done()
 				defer func() { <-sem }()
 				r := pool.Do(&Req{Op: "astrun", Src: vsrc, Texts: probes})
+				if r.Crash != "" {
+					// a lost worker is re-examined once before it counts
+					r = pool.Do(&Req{Op: "astrun", Src: vsrc, Texts: probes})
+				}
 				mu.Lock()
 				rep.Evaluations++
 				if oresp.CErr == "" {
